@@ -41,6 +41,8 @@ pub struct GenCfg {
     /// percent: a non-default locale gets an `inherits` entry
     pub p_inherits: u32,
     pub unicode: bool,
+    /// one text in twelve holds a lone `<` that opens no tag (`1 < 5`): it is text, and a real tag may follow it
+    pub stray_lt: bool,
     pub formatters: bool,
     /// percent of variables that carry a formatter (when `formatters`)
     pub p_formatter: u32,
@@ -98,6 +100,7 @@ impl Default for GenCfg {
             p_kind_varies: 10,
             p_inherits: 30,
             unicode: true,
+            stray_lt: false,
             formatters: false,
             p_formatter: 25,
             tags: true,
@@ -175,7 +178,16 @@ impl<'t> Gen<'t> {
                 s.push_str(*self.t.choose(ASCII_WORDS));
             }
         }
-        sanitize_text(&s)
+        let mut s = sanitize_text(&s);
+        if self.cfg.stray_lt && self.t.chance(1, 12) {
+            // U+E020 stands for the `<` until the last sanitising pass of `pieces` is over
+            match self.t.pick(3) {
+                0 => s.push_str(" \u{E020} 5 "),
+                1 => s.insert_str(0, "1 \u{E020} 2 "),
+                _ => s.push('\u{E020}'),
+            }
+        }
+        s
     }
 
     pub fn var_piece(&mut self, name: &str) -> Piece {
@@ -297,6 +309,11 @@ impl<'t> Gen<'t> {
             .into_iter()
             .map(|p| match p {
                 Piece::Text(t) => Piece::Text(sanitize_text(&t)),
+                other => other,
+            })
+            .map(|p| match p {
+                // only at the top level of a value: the pieces of a component body are re-checked by the caller
+                Piece::Text(t) if depth == 0 && t.contains('\u{E020}') => Piece::Text(t.replace('\u{E020}', "<")),
                 other => other,
             })
             .collect()
@@ -1067,6 +1084,9 @@ impl<'t> Gen<'t> {
         if self.cfg.fk_to_null && self.cfg.fk_chains && self.cfg.w_kinds[6] > 0 && self.t.chance(1, 5) {
             self.add_back_reference_pair(p);
         }
+        if self.cfg.fk_chains && self.cfg.fk_args_through_chain && self.cfg.w_kinds[6] > 0 && self.t.chance(1, 3) {
+            self.add_count_chain(p);
+        }
     }
 
     /// a pair of keys whose reference runs in opposite directions in two locales: everywhere `dst` is
@@ -1100,6 +1120,77 @@ impl<'t> Gen<'t> {
                 o.insert(pos, (src.to_string(), vs));
                 let pos = self.t.pick(o.len() + 1);
                 o.insert(pos, (dst.to_string(), vd));
+            }
+        }
+    }
+
+    /// references that reach a range / plural through an earlier reference which renamed its count:
+    /// `ccren = $t(K, {"count": "{{ nn }}"})`, then `ccfix = $t(ccren, {"nn": <literal>})` (the branch is fixed through
+    /// the new name), `ccre = $t(ccren, {"n": "{{ m }}"})` (renamed again), `cctwo = $t(K, {"count": "{{ n }}"}) .. {{ count }}`
+    /// and `cctwolit = $t(cctwo, {"count": 7})` (a `count` argument must not reach the range that no longer counts on
+    /// `count`), and `cclit = $t(K, {"count": <literal>})` written in every locale, also where K is null.
+    pub fn add_count_chain(&mut self, p: &mut Project) {
+        let ns_list = p.ns_list();
+        let ns = ns_list[self.t.pick(ns_list.len())].clone();
+        let Some(def) = p.file(ns.as_deref(), p.default_locale()) else { return };
+        // top-level keys that are a range (one type) or a plural in every locale that writes a value for them
+        let mut cands: Vec<(String, Option<RangeTy>)> = vec![];
+        for (k, v) in def.iter() {
+            let kind = match v {
+                Value::Range(r) => Some(r.ty),
+                Value::Plural(_) => None,
+                _ => continue,
+            };
+            let same_everywhere = p.locales.iter().all(|l| match p.file(ns.as_deref(), l).and_then(|o| obj_get(o, k)) {
+                None | Some(Value::Null) => true,
+                // (values that themselves hold references are left out: what a rename does to the counts they bring is another question)
+                Some(v) if value_contains_fk(v) => false,
+                Some(Value::Range(r)) => kind == Some(r.ty),
+                Some(Value::Plural(_)) => kind.is_none(),
+                Some(_) => false,
+            });
+            if same_everywhere {
+                cands.push((k.clone(), kind));
+            }
+        }
+        if cands.is_empty() {
+            return;
+        }
+        let (k, kind) = cands[self.t.pick(cands.len())].clone();
+        let used: Vec<String> = p.files.iter().filter(|((n, _), _)| *n == ns).flat_map(|(_, o)| o.iter().map(|(k, _)| k.clone())).collect();
+        if used.iter().any(|u| u.starts_with("cc")) {
+            return;
+        }
+        let lit = |t: &mut Tape| -> Arg {
+            let n = t.pick(4) as u64;
+            match kind {
+                Some(RangeTy::F32) | Some(RangeTy::F64) => Arg::F(n as f64 + if t.coin() { 0.5 } else { 0.0 }),
+                _ => Arg::U(n),
+            }
+        };
+        let lit_fix = lit(self.t);
+        let lit_direct = lit(self.t);
+        let fk = |path: &str, args: Vec<(String, Arg)>| Piece::Fk(Fk { ns: ns.clone(), path: vec![path.to_string()], args, ws: Default::default() });
+        for loc in p.locales.clone() {
+            let var_n = self.var_piece("nn");
+            let var_n2 = self.var_piece("nn");
+            let var_m = self.var_piece("mm");
+            let var_count = self.var_piece("count");
+            let t1 = self.text(&format!("{loc}:cctwo"));
+            let t2 = self.text(&format!("{loc}:cclit"));
+            let entries: Vec<(String, Value)> = vec![
+                ("ccren".into(), Value::Str(vec![fk(&k, vec![("count".into(), Arg::Str(vec![var_n]))])])),
+                ("ccfix".into(), Value::Str(vec![fk("ccren", vec![("nn".into(), lit_fix.clone())])])),
+                ("ccre".into(), Value::Str(vec![fk("ccren", vec![("nn".into(), Arg::Str(vec![var_m]))])])),
+                ("cctwo".into(), Value::Str(Self::finish_pieces(vec![fk(&k, vec![("count".into(), Arg::Str(vec![var_n2]))]), Piece::Text(t1), var_count]))),
+                ("cctwolit".into(), Value::Str(vec![fk("cctwo", vec![("count".into(), Arg::U(7))])])),
+                ("cclit".into(), Value::Str(Self::finish_pieces(vec![Piece::Text(t2), fk(&k, vec![("count".into(), lit_direct.clone())])]))),
+            ];
+            if let Some(o) = p.files.get_mut(&(ns.clone(), loc.clone())) {
+                for e in entries {
+                    let pos = self.t.pick(o.len() + 1);
+                    o.insert(pos, e);
+                }
             }
         }
     }
@@ -1355,6 +1446,9 @@ pub fn c06_project_for_map(map: [usize; 3]) -> Project {
             obj.push((format!("rd{pr}"), Value::Str(vec![fk(&[&k2], vec![("count".to_string(), Arg::U(0))]), t(&format!(" rd@{loc}"))])));
             obj.push((format!("re{pr}"), Value::Str(vec![t(&format!("re@{loc} ")), fk(&[&k2], vec![])])));
             obj.push((format!("rf{pr}"), Value::Str(vec![t(&format!("rf@{loc} ")), fk(&[&k3], vec![("count".to_string(), Arg::U(1))])])));
+            // count 0 is `one` in fr and `other` in en / de / es: the form must follow the referencing locale,
+            // also where the plural is null there and found in another locale
+            obj.push((format!("rg{pr}"), Value::Str(vec![t(&format!("rg@{loc} ")), fk(&[&k3], vec![("count".to_string(), Arg::U(0))])])));
             obj.push((format!("rr{pr}"), Value::Str(vec![t("["), fk(&[&ra], vec![]), t(&format!("]rr@{loc}"))])));
             // the reference key itself is null in the second and the fourth locale
             let rn = format!("rn{pr}");
